@@ -6,6 +6,7 @@ import (
 	"fmt"
 	"testing"
 
+	"github.com/hashicorp/serf/serf"
 	"pgregory.net/rapid"
 
 	"verif/internal/vkit"
@@ -32,6 +33,7 @@ func genC11(t *rapid.T) snapCase {
 	c.Names = genNames(t, false)
 	c.Ops = genOps(t, 40, map[int]int{opJoin: 6, opLeave: 2, opFailed: 2, opUpdate: 1, opReap: 1, opUser: 2,
 		opQuery: 2, opWitness: 2, opTick: 1, opAdvance: 2})
+	c.Ops2 = genOps(t, 14, map[int]int{opJoin: 4, opLeave: 3, opFailed: 3, opUser: 2, opQuery: 2, opWitness: 2, opTick: 1, opAdvance: 1})
 	return c
 }
 
@@ -158,6 +160,27 @@ func bodyC11(c snapCase, x *vkit.Ctx) {
 			nt++
 		}
 	}
+	// ---- crash, restart, carry on, restart again: whatever a crash left on disk
+	// (a half-written <path>.compact in particular) must not leak into the
+	// snapshot the restarted node goes on to maintain. Up to four crash images
+	// (whole writes only: a process crash does not tear a write) are continued
+	// with the second history and then restarted cleanly.
+	picked := 0
+	for k := len(images) - 1; k >= 0 && picked < 4; k-- {
+		img := images[k]
+		if img.Torn {
+			continue
+		}
+		_, hasTmp := img.Files[r.path+".compact"]
+		if !hasTmp && picked >= 2 {
+			continue
+		}
+		picked++
+		if !continueFrom(&c, img, r.path, x, fmt.Sprintf("crash point %d/%d (after op %s)", k, len(images), oplog[img.AfterOp])) {
+			return
+		}
+	}
+
 	// clean end
 	rec, err := restoreFrom(final, r.path, false)
 	if err != nil {
@@ -181,6 +204,64 @@ func bodyC11(c snapCase, x *vkit.Ctx) {
 	cpMu.Lock()
 	cpTotal += len(images)
 	cpMu.Unlock()
+}
+
+// continueFrom restarts a node on a crash image, lets it run the second
+// history and restarts it cleanly; the final state must be the one recovered
+// from the image plus everything the second history did.
+func continueFrom(c *snapCase, img crashImage, path string, x *vkit.Ctx, desc string) bool {
+	cc := *c
+	cc.Ops = c.Ops2
+	r, err := newSnapRun(&cc)
+	if err != nil {
+		x.Inconclusive("setup: " + err.Error())
+		return false
+	}
+	defer r.cleanup()
+	// if the on-disk file ends in a partial line (a bufio spill boundary), what
+	// is appended next is glued to it: that is a separate matter (see DESIGN.md),
+	// not what this phase is after
+	if data := img.Files[path]; len(data) > 0 && data[len(data)-1] != '\n' {
+		x.Label("continue:skipped-partial-last-line")
+		return true
+	}
+	r.fs.load(img.Files)
+	if err := r.openSnap(); err != nil {
+		x.Violationf("restart-fails", "%s: restart from the crash image fails: %v", desc, err)
+		return false
+	}
+	rec := readSnapshotter(r.snap)
+	r.alive = map[string]string{}
+	for k, v := range rec.Alive {
+		r.alive[k] = v
+	}
+	r.maxEvent, r.maxQuery = rec.Event, rec.Query
+	r.lc.Witness(serf.LamportTime(rec.Clock)) // as Serf does with the restored clock
+	for _, op := range cc.Ops {
+		if !r.apply(op) {
+			x.Violationf("event-not-forwarded", "%s, continuing: event not forwarded", desc)
+			return false
+		}
+		if r.problem != "" {
+			x.Inconclusive(r.problem)
+			return false
+		}
+	}
+	r.closeSnap()
+	if err := r.openSnap(); err != nil {
+		x.Violationf("reopen-failed", "%s, continued and shut down: reopening fails: %v", desc, err)
+		return false
+	}
+	got := readSnapshotter(r.snap)
+	sig := "state-wrong-after-crash-restart-continue"
+	if aliveKey(got.Alive) != aliveKey(r.alive) || got.Clock != uint64(r.lc.Time())-1 || got.Event != r.maxEvent || got.Query != r.maxQuery {
+		x.Violationf(sig, "%s: the node restarted from that crash image (recovering %s/%d/%d/%d), ran on and was restarted cleanly; it now recovers %s/%d/%d/%d, the model says %s/%d/%d/%d; files at the crash: %q",
+			desc, aliveKey(rec.Alive), rec.Clock, rec.Event, rec.Query, aliveKey(got.Alive), got.Clock, got.Event, got.Query,
+			aliveKey(r.alive), uint64(r.lc.Time())-1, r.maxEvent, r.maxQuery, img.Files)
+		return false
+	}
+	x.Label("continue:checked")
+	return true
 }
 
 func TestC11(t *testing.T) { vkit.Run(t, "C11", genC11, bodyC11) }
